@@ -13,6 +13,7 @@ A *record case* is a plain dict:
 
 import contextlib
 import datetime
+import decimal
 import io
 import os
 import shutil
@@ -33,8 +34,33 @@ def render_time(epoch, tz):
         FMT)
 
 
-def fmt_value(v):
-    return repr(float(v))
+NUMBER_TEXTS = [None, 'int', 'exp', 'EXP', 'plus', 'zeros']
+
+
+def fmt_value(v, style=None):
+    """Decimal text of a value.  The default is repr; the other styles are
+    other spellings of the same decimal number, as loggers and spreadsheets
+    write them (12 for 12.0, 1.25e+1, 1.25E+1, +12.5, 12.5000).  They are
+    only used where the shortest decimal has at most 15 digits, so that every
+    spelling denotes one number that SQLite and Python read alike."""
+    v = float(v)
+    text = repr(v)
+    if not style or v != v or v in (float('inf'), float('-inf')):
+        return text
+    dec = decimal.Decimal(text)
+    if len(dec.as_tuple().digits) > 15:
+        return text
+    if style == 'int':
+        return str(int(v)) if v == int(v) and abs(v) < 1e15 else text
+    if style == 'exp':
+        return '{:e}'.format(dec)
+    if style == 'EXP':
+        return '{:E}'.format(dec)
+    if style == 'plus':
+        return '+' + text if v >= 0 and not text.startswith('-') else text
+    if style == 'zeros':
+        return text + '000' if '.' in text and 'e' not in text else text
+    raise ValueError(style)
 
 
 def render_files(case):
@@ -43,6 +69,7 @@ def render_files(case):
     tz = pytz.timezone(case['tz'])
     t0, dt = case['t0'], case['dt']
     order = case.get('order') or {}
+    style = case.get('numtext')
 
     def rows_text(header, rows, perm):
         rows = list(rows)
@@ -53,7 +80,7 @@ def render_files(case):
                  if case.get('header_prefix') else header]
         for epoch, value in rows:
             lines.append('{},{}'.format(render_time(epoch, tz),
-                                        fmt_value(value)))
+                                        fmt_value(value, style)))
         return '\n'.join(lines) + '\n'
 
     # (indices may be fractional in malformed-input cases: whole seconds)
